@@ -153,15 +153,21 @@ def _plan(w, op):
         nb = len(ref.ncomp_per_branch)
         b = op["branch"] % nb
         info["branch"] = b
-        rv, thunk = with_view([["branch", {"t": "int", "v": b}]] if ref.kind != "branch" else [])
+        vs_ = [["branch", {"t": "int", "v": b}]] if ref.kind != "branch" else []
+        if op.get("odd") == "part":      # some compartments of the branch only (the whole branch if it has one compartment)
+            vs_ = vs_ + [["comp", {"t": "int", "v": 0}]]
+        elif op.get("odd") == "multi" and ref.kind != "branch":  # two branches at once
+            vs_ = [["branch", {"t": "list", "v": [b, (b + 1) % nb]}]]
+        rv, thunk = with_view(vs_)
         n = int(op["n"])
+        model_accepts = [True]
 
         def do():
             if op.get("min_radius") is not None:
                 thunk().set_ncomp(n, min_radius=op["min_radius"])
             else:
                 thunk().set_ncomp(n)
-            if ref.swc:
+            if ref.swc and model_accepts[0]:
                 # radius profile of an SWC branch: adopted from a direct read (checked by the C13 scenario)
                 start = sum(ref.ncomp_per_branch[:b])
                 for j in range(n):
@@ -170,6 +176,7 @@ def _plan(w, op):
         try:
             ref.set_ncomp(rv, n)
         except Reject as e:
+            model_accepts[0] = False
             e.do = do
             raise
         return do, info
@@ -280,12 +287,20 @@ def _plan(w, op):
         a = op["pre"] % ref.n
         b = op["post"] % ref.n
         info["pre"], info["post"] = a, b
+        # "pre_k" / "post_k": views of several consecutive compartments (vectorised connect: synapse j links the j-th
+        # compartment of each view); different lengths are a reject fault
+        pa = sorted({(a + j) % ref.n for j in range(int(op.get("pre_k", 1)))})
+        pb = sorted({(b + j) % ref.n for j in range(int(op.get("post_k", 1)))})
         syn = mech.syn_desc(op["cls"], op.get("name"))
-        ref.connect([a], [b], syn)
 
         def do():
-            jx_connect(w.m.select(nodes=[a]), w.m.select(nodes=[b]), mech.make_synapse(op["cls"], op.get("name")))
+            jx_connect(w.m.select(nodes=pa), w.m.select(nodes=pb), mech.make_synapse(op["cls"], op.get("name")))
 
+        try:
+            ref.connect(pa, pb, syn)
+        except Reject as e:
+            e.do = do
+            raise
         return do, info
 
     if kind == "init_states":
@@ -368,6 +383,12 @@ def apply_op(w, op, index, check=True):
             w.stopped = f"op {index} ({op['op']}): predicted rejection ({info.get('reject_reason')}) was accepted"
             w.bump("reject_not_raised")
             out["outcome"] = "reject_not_raised"
+            # the library may accept more than the model does — but whatever it accepts has to leave the tables mutually
+            # consistent (model-independent invariants; C19 speaks of every *accepted* call on arbitrary views)
+            d2 = [x for x in structural_invariants(w.m) if not x.startswith("dangling:")]
+            if d2:
+                w.violate("structural_invariant", f"{op['op']} ({info.get('reject_reason')}) was accepted and left: " + "; ".join(d2[:4]), index,
+                          {"after_accepted_call_outside_model": True})
         else:
             after = snap.snapshot(w.m, with_xyzr=False)
             if after != before:
